@@ -210,6 +210,17 @@ def judge(sc, kappa, lines, res, text, part, cell):
         bad("apply-shape", "output object is %s" % {k: out[k] for k in
                                                      ("type", "rows", "cols", "F")})
         return True
+    # vnacal(3) does not say which reference impedances the result carries
+    # (the library leaves the 50 ohm default of a freshly initialised
+    # object); what must not happen is that those of the object's previous
+    # contents show through
+    zs = out.get("z0")
+    if out.get("has_fz0") or zs is None or any(
+            complex(*z) not in (50.0 + 0j, complex(sc.z0)) for z in zs):
+        bad("apply-z0-stale", "output object has z0 %s (per-frequency: %s); "
+            "expected the default or the calibration's %r" % (
+                zs, out.get("has_fz0"), sc.z0))
+        return True
     worst = 0.0
     for f in range(sc.F):
         got = np.array([complex(a, b) for a, b in out["data"][f]]).reshape(p, p)
@@ -280,6 +291,9 @@ def work(chunk_id, payload):
             continue
         sc.duts = sc.rand_dut()
         sc.filecheck = filecheck
+        sc.reuse_vd = rng.random() < 0.4
+        if rng.random() < 0.25:
+            sc.z0 = complex(rng.choice([75.0, 50 + 5j, 1.0, 12.5 - 3j]))
         if kit:
             cnt["kit_scenarios"] = cnt.get("kit_scenarios", 0) + 1
         if kit or rng.random() < 0.35:
